@@ -30,24 +30,24 @@ RULE_MODULES: Dict[str, str] = {
 # property -> list of obligation-id prefixes ("R1" selects every obligation of R1,
 # "R1/O3" only that sub-obligation)
 PROPERTY_RULES: Dict[str, List[str]] = {
-    "C01": ["R7/R9", "R8", "R1/O1", "R1/O4", "R1/O5", "R2/INFLIGHT", "R2/sink", "R2/anc", "R2/own", "R2/until", "R2/extra", "R3/P1", "R3/P4", "R3/P5", "R5", "R6",
-            "R20/table/input_delays", "R20/delay", "R19/interval", "R19/anc-closure"],
-    "C02": ["R22/readers", "R7/R9", "R8", "R2/INFLIGHT", "R2/anc", "R2/own", "R3/P", "R4", "R5", "R11/schedule", "R11/sched-value", "R11/time-arg", "R11/last-step", "R20/table/triggers", "R20/delay",
+    "C01": ["R7/R9", "R8", "R1/O1", "R1/O4", "R1/O5", "R7/key", "R2/INFLIGHT", "R2/sink", "R2/anc", "R2/own", "R2/until", "R2/extra", "R3/P1", "R3/P4", "R3/P5", "R5", "R6",
+            "R20/table/input_delays", "R20/delay", "R20/writers", "R19/interval", "R19/anc-closure"],
+    "C02": ["R22/readers", "R7/R9", "R8", "R2/INFLIGHT", "R2/anc", "R2/own", "R3/P", "R4", "R5", "R11/schedule", "R11/sched-value", "R11/time-arg", "R11/last-step", "R20/table/triggers", "R20/delay", "R20/writers",
             "R19/anc-closure"],
-    "C03": ["R21", "R8/lift", "R17", "R5/store", "R5/update_min", "R20/delay", "R20/table", "R11/out", "R4/outtime", "R1/O1"],
-    "C04": ["R18", "R21", "R8", "R5", "R6", "R17", "R10/R18", "R1/O3", "R20/table", "R20/delay"],
+    "C03": ["R21", "R8/lift", "R17", "R5/store", "R5/update_min", "R20/delay", "R20/table", "R20/writers", "R11/out", "R4/outtime", "R1/O1", "R1/O4", "R2/INFLIGHT", "R2/anc", "R2/own"],
+    "C04": ["R18", "R21", "R8", "R5", "R6", "R17", "R10/R18", "R1/O1", "R1/O2", "R1/O3", "R1/O4", "R20/table", "R20/delay", "R11/raw"],
     "C05": ["R3/INIT", "R8", "R1/O4", "R1/O5", "R2", "R4/wake", "R4/settle", "R4/wait", "R5", "R6", "R7/site", "R19/anc-closure"],
     "C06": ["R5", "R6", "R7/site", "R7/R9", "R19", "R20/delay"],
     "C07": ["R2/INFLIGHT", "R2/sink", "R2/anc", "R2/own", "R2/until", "R2/extra", "R3/P3", "R5/store", "R5/update_min", "R19/anc-closure"],
-    "C08": ["R6"],
-    "C09": ["R7/R9", "R4/wake", "R8/lift", "R3/R12", "R4/outtime", "R19/interval"],
-    "C10": ["R1/O3", "R1/O4", "R2/INFLIGHT", "R2/sink", "R2/own", "R20/table/successors", "R20/delay", "R20/async", "R10/R18"],
-    "C11": ["R7/R9", "R20", "R19/interval", "R19/group_path", "R22/readers", "R22/tuple"],
+    "C08": ["R6", "R7/key"],
+    "C09": ["R7/R9", "R4/wake", "R8/lift", "R3/R12", "R4/outtime", "R19/interval", "R20/delay", "R20/table/triggers", "R1/O3", "R1/O1"],
+    "C10": ["R1/O3", "R1/O4", "R2/INFLIGHT", "R2/sink", "R2/own", "R20/table/successors", "R20/delay", "R20/async", "R20/writers", "R10/R18"],
+    "C11": ["R7/R9", "R20", "R19/interval", "R19/group_path", "R22/readers", "R22/tuple", "R22/defaults", "R22/forbidden", "R22/triple"],
     "C12": ["R22"],
     "C13": ["R11", "R3/P2", "R3/P6"],
-    "C14": ["R14", "R11/conn"],
+    "C14": ["R14", "R11/conn", "R11/raw"],
     "C15": ["R23", "R3/P3b"],
-    "C16": ["R1/O2", "R1/O4", "R20/async", "R20/connect", "R10/gate", "R10/set_data", "R10/get_data", "R17/take", "R17/memory", "R17/writeback"],
+    "C16": ["R1/O2", "R1/O4", "R20/async", "R20/connect", "R20/writers", "R10/gate", "R10/set_data", "R10/get_data", "R17/take", "R17/memory", "R17/writeback"],
     "C17": ["R3/INIT", "R8", "R2/rt", "R4/wait", "R10/set_event", "R10/run", "R10/rt_check", "R10/R18"],
     "C18": ["R24"],
 }
@@ -72,11 +72,11 @@ CLAIMS: Dict[str, Tuple[str, str]] = {
             "traceability of later steps over a whole run"),
     "C08": ("TieredInterval.__lt__ is a lexicographic scan, TieredTime.__lt__ a tuple comparison, derived operators consistent (total_ordering + frozen dataclass)",
             "monotonicity of arrival time, associativity, action law (value arithmetic)"),
-    "C09": ("guard placement before the step, all sub-tiers, >= against the configured bound, SimulationError naming the simulator, sub-tier accounting of the output time",
+    "C09": ("guard placement before the step, all sub-tiers, >= against the configured bound, SimulationError naming the simulator, sub-tier accounting of the output time, and what makes a sub-step count: every trigger entry carries its own connection's delay (a time-shifted trigger next to a weak one must leave the loop), and a simulator does not run sub-steps ahead of its consumers (the lazy wait includes the sub-tiers)",
             "'time then advances normally' (behaviour)"),
     "C10": ("under the flag every direct consumer contributes a has_reached(next_step + adapt) wait that is awaited before the step; the consumer's progress is a lower bound on its outstanding steps",
             "the run-ahead bound over executions"),
-    "C11": ("the rejection table of connect_one as an exhaustive decision table (exactly the four rejection classes, ScenarioError), no data-flow effect in any rejected row, which table gets which entry in every accepted row, weak needs a shared non-root group, shift/weak tiers, identity semantics of simulator groups",
+    "C11": ("the rejection table of connect_one as an exhaustive decision table (exactly the four rejection classes, ScenarioError), no data-flow effect in any rejected row, which table gets which entry in every accepted row, weak needs a shared non-root group, shift/weak tiers, identity semantics of simulator groups, and the classification the table reads (defaults table, forbidden kinds and triple inference of parse_attrs: which inputs are non-trigger decides which connections need initial data)",
             "'exactly when' over all concrete model descriptions"),
     "C12": ("the co-finite set algebra exhaustively (pointwise truth tables of every OutSet operator and branch), the inference equations and rejections of parse_set_triple, the defaults table of parse_attrs for all 192 combinations of type x any_inputs x present keys, the forbidden-kind guards, tuple order writer/reader agreement",
             "the value-level input/output relation of parse_attrs over all concrete descriptions"),
